@@ -412,6 +412,8 @@ pub fn inspect_and_check(
     regs: Vec<Reg>,
     inspect: &mut dyn FnMut(&mut dyn FnMut(Visit) -> bool),
     free_info: &mut dyn FnMut(&Reg) -> NodeInfo,
+    // does the poll state recorded in the node say "this node is linked into the wait queue"?
+    says_linked: &dyn Fn(&Reg, &NodeInfo) -> bool,
 ) -> View {
     let n = regs.len();
     let mut view = View {
@@ -603,20 +605,19 @@ pub fn inspect_and_check(
             });
         }
     }
-    // Pending and not woken => queued; not queued => clean links
+    // the queue contains exactly the live futures whose own poll state says they are waiting in it
     for ri in 0..n {
         let r = view.regs[ri];
         let queued = seen[ri];
-        if r.st == St::Pending && !r.woken {
-            ctx.check("C01", "pending-and-unwoken-implies-queued", true, queued, || {
-                format!(
-                    "table {} slot {} is Pending, holds no wake-up, and is in no wait queue: it can never complete (node state {})",
-                    r.table, r.slot, view.infos[ri].map_or(99, |i| i.state)
-                )
-            });
-        }
+        let info = view.infos[ri].unwrap();
+        let linked = says_linked(&r, &info);
+        ctx.check("C01", "queue-holds-exactly-the-futures-whose-poll-state-says-waiting", r.st != St::Fresh, queued == linked, || {
+            format!(
+                "table {} slot {}: node poll state {} says linked={}, but the node is {} the wait queue",
+                r.table, r.slot, info.state, linked, if queued { "in" } else { "not in" }
+            )
+        });
         if !queued {
-            let info = view.infos[ri].unwrap();
             let clean = info.prev == 0 && info.next == 0 && info.parent == 0 && info.first_child == 0;
             ctx.check("C20", "unqueued-node-has-no-links", r.st != St::Fresh, clean, || {
                 format!("table {} slot {} is in no queue but carries links {:?}", r.table, r.slot, info)
